@@ -68,7 +68,7 @@ def run(ctx):
     r1 = ctx.inst("C17.R1", "the decimals handler walks the WHOLE registry: its loop iterates a collection collected from an unbounded PAIRS scan (no take/skip/filter), through helpers", floor=2)
     r2 = ctx.inst("C17.R2", "the page-limited reader is used only by the Pairs query", floor=1)
     r3 = ctx.inst("C17.R3", "position logic: for i in {0,1}, exactly when asset_infos[i] is the native denom, record and message carry [.. i: new decimals, 1-i: stored ..], to that pair, every iteration", floor=4)
-    r4 = ctx.inst("C17.R4", "the allow-list is written under the same key derivation the denom query reads, on every success path", floor=2)
+    r4 = ctx.inst("C17.R4", "the allow-list is written under the same key derivation the denom query reads, on every success path; the denom query answers exactly the stored entry", floor=3)
     r5 = ctx.inst("C17.R5", "pair side: stored decimals are replaced by the message's array exactly when one of the pair's native denoms equals the message denom; the rest of the record is preserved", floor=3)
     try:
         PAIRS, ALLOW = ctx.N.PAIRS, ctx.N.ALLOW
@@ -389,6 +389,17 @@ def run(ctx):
             if len(k) == 1 and re.match(r"^P:%s#\d+$" % re.escape(f.path), list(k)[0]):
                 okq = True
                 r4.site("%s reads ALLOW_NATIVE_TOKENS[denom.as_bytes()]" % f.path)
+                # C17 needs: for a registered denom the answer is the stored entry (defaults for unknown denoms are C16's concern)
+                for (b2, i2, cls2, v2) in common.ok_exit_blocks(P, f):
+                    got_d = set(ctx.roots(v2, (("v", "Ok"), ("f", 0), ("f", "decimals"))))
+                    want_d = "mload(%s)[%s]" % (ALLOW, list(k)[0])
+                    loads = [x for x in common.walk(v2) if x[0] == "call" and isinstance(x[3], str) and re.search(r"cw_storage_plus::(map::)?Map::(load|may_load)$", generic_path(x[3]))]
+                    derived = loads and all("|".join(sorted(ctx.roots(x[4][0]))) == ALLOW and set(ctx.roots(x[4][2])) == k for x in loads) and \
+                        all(r == want_d or r.startswith(("or(%s;" % want_d, "C:std::option::Option::unwrap_or")) for r in got_d)
+                    if got_d == {want_d} or derived:
+                        r4.site("%s answers the stored entry of the denom" % f.path)
+                    else:
+                        r4.fail("C17.R4:reader-value", f.path, common.span_of_block_term(f, b2), "the native-decimals query answers %s, not the stored entry %s" % (sorted(got_d), want_d))
         if not okq:
             r4.fail("C17.R4:reader-key", "-", "-", "the native-decimals query does not read the allow-list under the plain denom bytes")
 
@@ -494,3 +505,32 @@ def run(ctx):
             else:
                 r5.site("record saved after the loop over both assets")
     ctx.assumptions.append("'never diverge over any history' additionally uses: records are created consistent (C16.R5/R6), messages are delivered atomically (platform), and only the factory can update a pair (C14.R6)")
+
+
+def allow_list_reader_strict(ctx, inst):
+    """For C16: the factory's native-decimals query answers exactly the stored entry and is an error for an unregistered denom."""
+    P = ctx.P
+    ALLOW = ctx.N.ALLOW
+    fr = roles.FactoryRoles(P)
+    h = fr.add_decimals[3]
+    n = 0
+    for f in P.prod_fns():
+        if f.path == h.path:
+            continue
+        for (b, op, it, v) in common.storage_sites(P, f, writes=False):
+            if it != ALLOW:
+                continue
+            k = set(ctx.roots(v[4][2]))
+            if not (len(k) == 1 and re.match(r"^P:%s#\d+$" % re.escape(f.path), list(k)[0])):
+                continue
+            n += 1
+            want_d = {"mload(%s)[%s]" % (ALLOW, list(k)[0])}
+            for (b2, i2, cls2, v2) in common.ok_exit_blocks(P, f):
+                got_d = set(ctx.roots(v2, (("v", "Ok"), ("f", 0), ("f", "decimals"))))
+                if got_d != want_d:
+                    inst.fail("%s:reader-default" % inst.id, f.path, common.span_of_block_term(f, b2),
+                              "the native-decimals query answers %s, expected exactly the stored entry %s: an unregistered denom must be an error, pair creation relies on it to enforce the allow-list" % (sorted(got_d), sorted(want_d)))
+                else:
+                    inst.site("%s answers exactly the stored entry; absent entry => Err (%s)" % (f.path, op))
+    if n == 0:
+        inst.fail("%s:reader-anchor" % inst.id, "-", "-", "anchor-missing: native-decimals query reading the allow-list under the plain denom bytes")
